@@ -140,11 +140,39 @@ def build_digest(r):
     return m.hexdigest()[:20]
 
 
+def _plain(x):
+    """option values as comparable text (no paths, no file handles)"""
+    if isinstance(x, dict):
+        return {str(k): _plain(v) for k, v in sorted(x.items(), key=str)
+                if k not in ('paths', 'files', 'path')}
+    if isinstance(x, (list, tuple)):
+        return [_plain(v) for v in x]
+    if isinstance(x, np.ndarray):
+        return x.tolist()
+    if isinstance(x, (int, float, str, bool, type(None), np.generic)):
+        return x if not isinstance(x, str) else os.path.basename(x)
+    return type(x).__name__
+
+
 def sweep_digest(r):
+    """what a consumer of the finished model can observe: the fields, the
+    requests it carries (tables, hot spots, dumps) and the hot-spot
+    analysis derived from both"""
     m = hashlib.sha256()
     for a in r.assemblies:
         m.update(sim.asm_state_digest(a).encode())
     m.update(np.ascontiguousarray(r.core.coolant_gap_temp).tobytes())
+    opts = getattr(r, '_options', {}) or {}
+    for k in ('hotspot', 'AssemblyTables', 'axial_plane'):
+        m.update(repr((k, _plain(opts.get(k)))).encode())
+    if opts.get('hotspot'):
+        try:
+            hs = dassh.hotspot.analyze(r)
+            m.update(repr(_plain(hs)).encode())
+        except SystemExit:
+            m.update(b'hotspot:exit')
+        except Exception as e:
+            m.update(f'hotspot:{type(e).__name__}'.encode())
     return m.hexdigest()[:20]
 
 
@@ -374,8 +402,8 @@ class C16(Prop):
                     'temperature': 'coolant',
                     'subfactors': rng.choice(gh, ['fftf_clad_mw',
                                                   'crbr_fuel_clad_mw']),
-                    'input_sigma': int(gh.integers(2, 4)),
-                    'output_sigma': int(gh.integers(1, 3))}}
+                    'input_sigma': int(gh.integers(1, 4)),
+                    'output_sigma': int(gh.integers(0, 3))}}
                 if t.get('pinmodel') and rng.chance(gh, 0.6):
                     hs['hs_clad'] = {
                         'temperature': 'clad_mw',
